@@ -30,11 +30,23 @@ static GraphSpec gen_sched_graph(Rng &r, int max_n, bool int_only) {
     return s;
 }
 
-template<class W> struct RunResult { W ret = 0; std::list<std::list<typename BG<W>::Edge>> cycles; std::string exc; };
+template<class W> struct RunResult { W ret = 0; std::list<std::list<typename BG<W>::Edge>> cycles; std::string exc, sink_err; };
 template<class W>
-static RunResult<W> run_entry(int entry, const typename BG<W>::Graph &g, typename BG<W>::WMap w, size_t k) {
-    RunResult<W> R;
-    try { if (entry < 3) R.ret = run_exact<W>(3 + entry, g, w, R.cycles); else R.ret = run_approx<W>(entry, g, w, k, R.cycles); }
+static RunResult<W> run_entry(int entry, const typename BG<W>::Graph &g, typename BG<W>::WMap w, size_t k, int sink_kind = 0, bool ext_map = false, size_t expected = 0) {
+    RunResult<W> R; typedef typename BG<W>::Edge E;
+    // output iterator and weight map are template parameters of the parallel entry points too (the approximate ones only compile
+    // with the graph's interior weight map: their exact phase is instantiated with the caller's map type but runs on the spanner's)
+    if (entry >= 3) ext_map = false;
+    try {
+        if (sink_kind == 1) {
+            SlotSink<std::list<E>> sink(expected + 4);
+            if (ext_map) { std::map<E, W> store; for (auto e : boost::make_iterator_range(boost::edges(g))) store[e] = boost::get(w, e); boost::associative_property_map<std::map<E, W>> wm(store);
+                R.ret = run_exact_it<W>(3 + entry, g, wm, sink.begin()); }
+            else R.ret = entry < 3 ? run_exact_it<W>(3 + entry, g, w, sink.begin()) : run_approx_it<W>(entry, g, w, k, sink.begin());
+            R.sink_err = sink.collect(expected, R.cycles);
+        } else if (ext_map) { std::map<E, W> store; for (auto e : boost::make_iterator_range(boost::edges(g))) store[e] = boost::get(w, e); boost::associative_property_map<std::map<E, W>> wm(store);
+            R.ret = run_exact_it<W>(3 + entry, g, wm, std::back_inserter(R.cycles)); }
+        else if (entry < 3) R.ret = run_exact<W>(3 + entry, g, w, R.cycles); else R.ret = run_approx<W>(entry, g, w, k, R.cycles); }
     catch (std::exception &e) { R.exc = e.what(); } catch (std::runtime_error *e) { R.exc = e->what(); delete e; } catch (...) { R.exc = "unknown"; }
     return R;
 }
@@ -44,6 +56,7 @@ static void judge(CaseOut &co, const GraphSpec &s, const typename BG<W>::Graph &
     std::string cj = J().str("entry", entry_names[entry]).str("weight_type", std::is_same<W, int>::value ? "int" : "double").num("k", (ll) k).raw("config", cfg_json).raw("graph", spec_json(s)).done();
     std::string key = std::string(entry_names[entry]) + ":";
     if (!R.exc.empty()) { co.viol(key + "exception", R.exc, cj, spec_text(s)); return; }
+    if (!R.sink_err.empty()) { co.viol(key + "output_iterator_misuse", "through a positional output iterator: " + R.sink_err + " " + cfg_tag, cj, spec_text(s)); return; }
     BasisReport br = check_basis<W>(s, g, R.cycles);
     std::string obs = J().num("emitted_cycles", (ll) br.count).raw("cycle_weights_units", jnums(br.weights)).dbl("returned", (double) R.ret).num("optimum_units", orc.opt).done();
     if (!br.error.empty()) { co.viol(key + "invalid_basis(" + br.kind + ")", br.error + " " + cfg_tag, cj, spec_text(s), obs); return; }
@@ -80,11 +93,12 @@ static void run_case(const Args &a, uint64_t i, Rng &r, const GraphSpec &s, bool
                 vshim::S().reset(sseed, T, threaded);
                 cfg = J().str("scheduler", threaded ? "shim-threaded" : "shim-serial").unum("schedule_seed", sseed).num("workers", T).done();
                 tag = "[schedule seed " + std::to_string(sseed) + ", " + (threaded ? std::to_string(T) + " threads" : "serial") + "]";
-                RunResult<W> R = run_entry<W>(entry, g, w, k);
+                int sink_kind = (mix(sseed, 91) % 10) < 3 ? 1 : 0; bool ext_map = (mix(sseed, 92) % 10) < 2; if (sink_kind) co.tag("sink:positional"); if (ext_map && entry < 3) co.tag("weightmap:external_std_map");
+                RunResult<W> R = run_entry<W>(entry, g, w, k, sink_kind, ext_map, (size_t) dim);
 #else
                 static const int lims[] = {1, 2, 4, 16}; int lim = lims[r.below(4)];
                 cfg = J().str("scheduler", "oneTBB").num("max_allowed_parallelism", lim).done(); tag = "[oneTBB limit " + std::to_string(lim) + "]";
-                RunResult<W> R; { tbb::global_control gc(tbb::global_control::max_allowed_parallelism, lim); R = run_entry<W>(entry, g, w, k); }
+                RunResult<W> R; { tbb::global_control gc(tbb::global_control::max_allowed_parallelism, lim); R = run_entry<W>(entry, g, w, k, (mix(sseed, 91) % 10) < 3 ? 1 : 0, (mix(sseed, 92) % 10) < 2, (size_t) dim); }
                 (void) sseed; (void) T;
 #endif
                 executions++;
